@@ -4,7 +4,7 @@
    run_init of /repo/src/bin/cargo-tauri-typegen.rs, defects included); specification and
    known-finding classes: Spec/C19Spec.v; proofs: Proofs/C19ConfigProofs.v. *)
 From Coq Require Import String List Bool.
-Require Import TT.Model.C19Config TT.Spec.C19Spec TT.Proofs.C19ConfigProofs.
+Require Import TT.Model.C19Config TT.Spec.C19Spec TT.Proofs.C19ConfigProofs TT.Proofs.C19OracleProofs.
 Import ListNotations.
 Local Open Scope string_scope.
 
@@ -139,11 +139,95 @@ Proof. exact init_file_no_overwrite. Qed.
 Theorem C19_init_file_document : forall (f : fs) (il : iflags) (force : bool),
   init_invalid f il = false ->
   fs_exists f (or_else (i_output il) "tauri.conf.json") && negb force = false ->
+  init_writable f (or_else (i_output il) "tauri.conf.json") = true ->
   norm (init_generated il) <> norm (or_else (i_output il) "tauri.conf.json") ->
   fs_get (result_fs (run_init_file f il force)) (or_else (i_output il) "tauri.conf.json")
     = Some (NDoc (Some (flat_json (init_config il))))
   /\ from_flat (flat_json (init_config il)) = Some (init_config il).
 Proof. exact init_file_document. Qed.
+
+(* ---- deepening round 7 ---- *)
+(* init -o <file> whose directory does not exist (or has a regular file in the way, or which
+   is itself a directory): an error, every file left alone - nothing is created on the way *)
+Theorem C19_init_file_unwritable : forall (f : fs) (il : iflags) (force : bool),
+  init_writable f (or_else (i_output il) "tauri.conf.json") = false ->
+  run_init_file f il force = RFail f \/ exists e, run_init_file f il force = RReject e f.
+Proof. exact init_file_unwritable. Qed.
+
+(* a standalone file that states one of the twelve fields twice is refused by the reader
+   (serde's derived reader: duplicate field), whatever the two values *)
+Theorem C19_file_duplicate_refused : forall d : list (string * json),
+  dup_field d = true -> from_flat (JObj d) = None.
+Proof. exact from_flat_dup. Qed.
+
+(* so is a root that is neither an object without such a repetition nor an array of at most
+   twelve elements (an array is read positionally: C19_precedence_file covers it) *)
+Theorem C19_file_shape_refused : forall doc : json, flat_shape_ok doc = false -> from_flat doc = None.
+Proof. exact from_flat_shape. Qed.
+
+(* the equality tests inside the oracles decide equality *)
+Theorem C19_json_eqb_reflect : forall a b : json, json_eqb a b = true <-> a = b.
+Proof. exact json_eqb_eq. Qed.
+Theorem C19_config_eqb_reflect : forall a b : config, config_eqb a b = true <-> a = b.
+Proof. exact config_eqb_eq. Qed.
+Theorem C19_eff_eqb_reflect : forall a b : eff, eff_eqb a b = true <-> eff_norm a = eff_norm b.
+Proof. exact eff_eqb_iff. Qed.
+
+(* round-trip oracles = the Prop-level statements *)
+Theorem C19_oracle_roundtrip_reflect : forall (c : config) (l : option config),
+  roundtrip_b c l = true <-> l = Some (normalise c).
+Proof. exact roundtrip_b_iff. Qed.
+Theorem C19_oracle_roundtrip_file_reflect : forall (c : config) (l : option config),
+  flat_roundtrip_b c l = true <-> l = Some c.
+Proof. exact flat_roundtrip_b_iff. Qed.
+Theorem C19_oracle_roundtrip_lres_reflect : forall (f : fs) (c : config) (l : lres),
+  roundtrip_lres_b f c l = true <-> roundtrip_lres_P f c l.
+Proof. exact roundtrip_lres_b_iff. Qed.
+
+(* preservation oracle = every path of length at most fuel outside the section has the same
+   value in both documents (absent = absent); and, with fuel above the depth of both
+   documents, = every path outside the section *)
+Theorem C19_oracle_preserved_reflect : forall (fuel : nat) (before after : json),
+  preserved_b fuel before after = true <-> preserved_P fuel before after.
+Proof. exact preserved_b_iff. Qed.
+Theorem C19_oracle_preserved_reflect_all : forall (fuel : nat) (before after : json),
+  depth before <= fuel -> depth after <= fuel ->
+  (preserved_b fuel before after = true <-> preserved_all_P before after).
+Proof. exact preserved_b_iff_all. Qed.
+
+(* the model passes the preservation oracle: every settings value, every accepted document, any fuel *)
+Theorem C19_oracle_preserved_model : forall (fuel : nat) (c : config) (doc doc' : json),
+  save_doc c doc = Some doc' -> preserved_b fuel doc doc' = true.
+Proof. exact oracle_preserved_model. Qed.
+
+(* the whole library-level oracle (refusal of unsaveable documents, preservation, read-back
+   judged on what the loader returns) = its Prop-level statement, and the model passes it
+   for every file system, settings value and document *)
+Theorem C19_oracle_lib_reflect : forall (f : fs) (c : config) (dref : json) (after : option json) (l : lres),
+  lib_ok_b f c dref after l = true <-> lib_ok_P f c dref after l.
+Proof. exact lib_ok_b_iff. Qed.
+Theorem C19_oracle_lib_model : forall (f : fs) (c : config) (d : json),
+  let after := save_doc c d in
+  let f' := match after with Some d' => fs_put f "tauri.conf.json" (NDoc (Some d')) | None => f end in
+  lib_ok_b f' c d after (from_tauri_config f' "tauri.conf.json") = true.
+Proof. exact oracle_lib_model. Qed.
+
+(* precedence oracles (generate, generate -c) = the Prop-level statements; the model passes
+   them for every set of files and every flag set, and a refusal of the model leaves the file
+   system it started from *)
+Theorem C19_oracle_precedence_reflect : forall (f : fs) (fl : flags) (o : cli_obs),
+  generate_ok_b f fl o = true <-> generate_ok_P f fl o.
+Proof. exact generate_ok_b_iff. Qed.
+Theorem C19_oracle_precedence_model : forall (f : fs) (fl : flags),
+  generate_ok_b f fl (obs_of_result (run_generate f fl)) = true
+  /\ (forall e f', run_generate f fl = RReject e f' -> f' = f).
+Proof. exact oracle_generate_model. Qed.
+Theorem C19_oracle_precedence_file_reflect : forall (f : fs) (fl : flags) (p : string) (o : cli_obs),
+  generate_c_ok_b f fl p o = true <-> generate_c_ok_P f fl p o.
+Proof. exact generate_c_ok_b_iff. Qed.
+Theorem C19_oracle_precedence_file_model : forall (f : fs) (fl : flags) (p : string),
+  generate_c_ok_b f fl p (obs_of_result (run_generate_c f fl p)) = true.
+Proof. exact oracle_generate_c_model. Qed.
 
 (* ---- non-vacuity: concrete non-trivial inputs meet the premises *)
 Definition ex_doc : json :=
@@ -315,6 +399,59 @@ Example C19_ex_reject_on_generated_dir :
   /\ fs_get f "./src/generated" = Some (NOut {| g_project := "primeP"; g_lib := "none"; g_viz := false |}).
 Proof. vm_compute. repeat split; reflexivity. Qed.
 
+(* ---- deepening round 7: examples *)
+(* the oracles on the example document: accepted for the model's output, within the fuel,
+   and not vacuous (a dropped key, a changed array element, wrong settings are refused) *)
+Example C19_ex_oracles :
+  preserved_b 40 ex_doc ex_saved = true /\ depth ex_doc <= 40 /\ depth ex_saved <= 40
+  /\ preserved_b 40 ex_doc (JObj [("plugins", JObj [])]) = false
+  /\ preserved_b 2 (JObj [("a", JArr [JNum "1"])]) (JObj [("a", JArr [JNum "2"])]) = false
+  /\ roundtrip_b ex_cfg (load_doc ex_saved) = true /\ roundtrip_b ex_cfg (Some ex_cfg) = false
+  /\ generate_ok_b ex_fs ex_flags (obs_of_result (run_generate ex_fs ex_flags)) = true
+  /\ generate_ok_b ex_fs ex_flags (ORan (spec_eff ex_fs no_flags)) = false
+  /\ generate_ok_b ex_fs ex_flags (ORejected true) = false
+  /\ lib_ok_b ex_fs ex_cfg ex_doc (Some ex_saved) (LOk (normalise ex_cfg)) = true
+  /\ lib_ok_b ex_fs ex_cfg ex_doc (Some ex_saved) (LOk ex_cfg) = false.
+Proof. vm_compute. repeat split; try reflexivity; repeat constructor. Qed.
+
+(* standalone files: a field given twice is refused, an unknown key may repeat, an array is
+   read by position (flag over file over default still holds), thirteen elements are refused *)
+Definition ex_flat_arr : json := JArr [JStr "./projA"; JStr "./outF"; JStr "zod"; JBool true].
+Example C19_ex_file_shapes :
+  dup_field [("verbose", JBool true); ("output_path", JStr "./a"); ("verbose", JBool true)] = true
+  /\ from_flat (JObj [("verbose", JBool true); ("output_path", JStr "./a"); ("verbose", JBool true)]) = None
+  /\ (exists c0, from_flat (JObj [("x", JNum "1"); ("force", JBool true); ("x", JNum "2")]) = Some c0 /\ force c0 = Some true)
+  /\ (exists c0, from_flat ex_flat_arr = Some c0 /\ project_path c0 = "./projA" /\ verbose c0 = Some true /\ force c0 = None)
+  /\ spec_eff_c ex_flags ex_flat_arr =
+     {| e_project := "./projB"; e_output := "./outF"; e_lib := "zod"; e_verbose := true;
+        e_log_verbose := true; e_visualize := false; e_force := false |}
+  /\ flat_shape_ok (JArr (repeat JNull 13)) = false /\ from_flat (JArr (repeat JNull 13)) = None
+  /\ flat_shape_ok (JStr "x") = false
+  /\ (exists f', run_generate_c (ex_fs ++ [("typegen.json", NDoc (Some ex_flat_arr))])%list ex_flags "typegen.json"
+                 = RRun (spec_eff_c ex_flags ex_flat_arr) f')
+  /\ generate_c_ok_b (ex_fs ++ [("typegen.json", NDoc (Some ex_flat_arr))])%list ex_flags "typegen.json"
+       (obs_of_result (run_generate_c (ex_fs ++ [("typegen.json", NDoc (Some ex_flat_arr))])%list ex_flags "typegen.json")) = true.
+Proof.
+  vm_compute. split; [reflexivity|]. split; [reflexivity|]. split; [eexists; split; reflexivity|].
+  split; [eexists; repeat split; reflexivity|]. repeat split; try reflexivity. eexists. reflexivity.
+Qed.
+
+(* init -o into a directory that does not exist, through a regular file, onto a directory:
+   refused with every file left alone; into an existing directory: created *)
+Example C19_ex_init_unwritable :
+  let f := [("src-tauri", NProj); ("notes.txt", NDoc None); ("cfg", NDir); ("empty", NDir)] in
+  let il o := {| i_project := None; i_generated := Some "./gen"; i_output := Some o;
+                 i_validation := Some "zod"; i_verbose := false; i_visualize := false |} in
+  init_invalid f (il "nodir/my.json") = false
+  /\ init_writable f "nodir/my.json" = false /\ run_init_file f (il "nodir/my.json") false = RFail f
+  /\ init_writable f "notes.txt/my.json" = false /\ run_init_file f (il "notes.txt/my.json") true = RFail f
+  /\ init_writable f "empty" = false /\ run_init_file f (il "empty") true = RFail f
+  /\ init_writable f "./cfg/my.json" = true /\ init_writable f "my.json" = true /\ init_writable f "./my.json" = true
+  /\ exists e f', run_init_file f (il "./cfg/my.json") false = RRun e f'
+       /\ fs_get f' "cfg/my.json" = Some (NDoc (Some (flat_json (init_config (il "./cfg/my.json"))))).
+Proof. vm_compute. repeat split; try reflexivity. eexists. eexists. split; reflexivity. Qed.
+
+
 Print Assumptions C19_preserve.
 Print Assumptions C19_save_refused.
 Print Assumptions C19_roundtrip.
@@ -334,3 +471,21 @@ Print Assumptions C19_oracle_roundtrip_file_model.
 Print Assumptions C19_init_file_reject_first.
 Print Assumptions C19_init_file_no_overwrite.
 Print Assumptions C19_init_file_document.
+Print Assumptions C19_init_file_unwritable.
+Print Assumptions C19_file_duplicate_refused.
+Print Assumptions C19_file_shape_refused.
+Print Assumptions C19_json_eqb_reflect.
+Print Assumptions C19_config_eqb_reflect.
+Print Assumptions C19_eff_eqb_reflect.
+Print Assumptions C19_oracle_roundtrip_reflect.
+Print Assumptions C19_oracle_roundtrip_file_reflect.
+Print Assumptions C19_oracle_roundtrip_lres_reflect.
+Print Assumptions C19_oracle_preserved_reflect.
+Print Assumptions C19_oracle_preserved_reflect_all.
+Print Assumptions C19_oracle_preserved_model.
+Print Assumptions C19_oracle_lib_reflect.
+Print Assumptions C19_oracle_lib_model.
+Print Assumptions C19_oracle_precedence_reflect.
+Print Assumptions C19_oracle_precedence_model.
+Print Assumptions C19_oracle_precedence_file_reflect.
+Print Assumptions C19_oracle_precedence_file_model.
